@@ -1,4 +1,4 @@
-SOURCE_COMMITS = ['2a82dd5', '23b3277', 'd11a4bc', '0ff938d', 'f5c3f96', '4d27d01', '24cde5a', 'eabce87', '6660817', '6b4eb47', '2cb23c1', '3b6902e', '3a1ed2d', '294bb7e', 'fce13cd', '0d26e09']
+SOURCE_COMMITS = ['2a82dd5', '23b3277', 'd11a4bc', '0ff938d', 'f5c3f96', '4d27d01', '24cde5a', 'eabce87', '6660817', '6b4eb47', '2cb23c1', '3b6902e', '3a1ed2d', '294bb7e', 'fce13cd', '0d26e09', '9e23548']
 NOTES = ('Exit codes of ./check: 0 all obligations discharged; 1 violation (VIOLATION line); '
          '2 undecided (solver unknown / extraction failure / contract binding lost); 3 checker crash. '
          'See DESIGN.md.')
@@ -65,7 +65,10 @@ CLAIMED = {
         'with the complete payload; the block loop invariant written = min(k*block, len) gives completeness at the rename for every '
         'payload length; a complete cached file is reused without any network call; from every crash-reachable cache state (a stale '
         '.partial of any length included) a call that meets no new I/O error returns the complete file (dl.repair / xz.repair; '
-        'exclusive-create open and os.remove are modelled); validate_file returns iff size and sha256 match.',
+        'exclusive-create open and os.remove are modelled); validate_file returns iff size and sha256 match; '
+        'cifar100.load_split (download -> validate -> decompress -> convert): the converted file is absent or complete under its final '
+        'name at every crash point, both validations happen on the right path with the pinned constants before the file is used, a '
+        'complete file is reused.',
    note='Trusted: open("wb") truncates, write appends or raises, os.rename atomic, raw.read(b) returns min(b, remaining) or raises, '
         'content-length equals the payload size, copyfileobj copies all or raises. Not covered: concurrent callers; '
         'cifar100.load_split building its SQLite file in place.'),
